@@ -420,6 +420,10 @@ func (c *Ctx) ruleA4(rule string, fn *ssa.Function, isWorker func(*ssa.Call) boo
 				if isReturn(in) {
 					return true
 				}
+				if c.joinBeforeReturnOnly {
+					// asked only whether the goroutines are joined before the method returns
+					return false
+				}
 				if _, ok := in.(*ssa.Go); ok && !inGroup(in) {
 					return true
 				}
@@ -438,10 +442,12 @@ func (c *Ctx) ruleA4(rule string, fn *ssa.Function, isWorker func(*ssa.Call) boo
 			}
 			var hit ssa.Instruction
 			var found bool
+			// (ways a flag or a condition tested twice rules out are not followed: `if !b { wg.Wait() } ..
+			// if b { wg.Wait() }` joins on every way)
 			if s == ssa.Instruction(s) && inGroup(s) {
-				hit, found = pathExists(fn, s, target, isWait)
+				hit, found = x.pathExistsFlags(fn, s, target, nil, isWait)
 			} else {
-				hit, found = pathFrom(s, target, isWait)
+				hit, found = x.pathExistsFlagsAt(fn, s.Block(), instrIdx(s), target, nil, isWait)
 			}
 			if found {
 				bad = fmt.Sprintf("%T", hit)
